@@ -214,6 +214,9 @@ async fn init_evidence(c: &mut Collection) -> Result<(), DBError> {
     init_envelope(c).await?;
     c.create_btree_index_nx(&["client_key"]).await?;
     c.create_btree_index_nx(&["evidence_class"]).await?;
+    // `EVIDENCE {status: ..}` is pushed into the index filter like the same
+    // matcher on Assertions and Activities.
+    c.create_btree_index_nx(&["status"]).await?;
     // Indexed for lookup, never for identity: two independent observations of
     // the same bytes are two observations (§73).
     c.create_btree_index_nx(&["content_digest"]).await?;
